@@ -127,7 +127,11 @@ def generate(check, rng, tier, run_index):
             o = {'op': 'write', 'k': rng.weighted([(1, 5), (2, 3), (3, 2), (rng.randint(4, 7), 1)])}
             if o['k'] == 1 and fmt in SQUEEZE_OK and rng.chance(0.4):
                 o['squeeze'] = True       # a single frame handed over as 2-d coordinates / scalar time ("dimension deficient by one")
+            elif rng.chance(0.25):
+                o['noncontig'] = True     # the caller's arrays are float64 and not C-contiguous (a strided view of a bigger array)
             ops.append(o)
+            if rng.chance(0.06):
+                ops.append({'op': 'write', 'k': 0})      # a write call with zero frames (an empty chunk at the end of a loop)
         elif k == 'ragged':
             n_ragged += 1
             ops.append({'op': 'ragged', 'kind': rng.choice(rag), 'k': rng.randint(1, 2), 'delta': rng.choice([-1, 1])})
@@ -292,6 +296,25 @@ def same_load(a, b):
 
 # ------------------------------------------------------------------ execute
 
+def _noncontig(x, t_, l_, a_):
+    """the same values as float64, non C-contiguous views (every second row of a bigger array / Fortran order)"""
+    big = np.zeros((2 * len(x),) + x.shape[1:], dtype=np.float64)
+    big[::2] = x
+    xv = big[::2]
+    tv = None if t_ is None else np.repeat(np.asarray(t_, dtype=np.float64), 2)[::2]
+    # the cell keeps its float32 type: lengths/angles are converted to box vectors by the writers, and doing that
+    # arithmetic in another precision moves the stored value by one ulp -- a property of the input type, not of how
+    # the frames were split over write calls, which is all this check compares
+    def strided(v):
+        if v is None:
+            return None
+        v = np.asarray(v)
+        b = np.zeros((len(v), 6), dtype=v.dtype)
+        b[:, ::2] = v
+        return b[:, ::2]
+    return xv, tv, strided(l_), strided(a_)
+
+
 def _chunk(src, ids, with_cell, with_time):
     xyz = src['xyz'][ids]
     tm = src['time'][ids] if with_time else None
@@ -433,6 +456,11 @@ def _execute(check, case, workdir):
                 if op.get('squeeze') and k == 1 and fmt in SQUEEZE_OK:
                     x, t_, l_, a_ = x[0], (None if t_ is None else float(t_[0])), (None if l_ is None else l_[0]), (None if a_ is None else a_[0])
                     res.probe('single_frame_written_dimension_deficient')
+                elif op.get('noncontig') and k > 0:
+                    x, t_, l_, a_ = _noncontig(x, t_, l_, a_)
+                    res.probe('noncontiguous_float64_input')
+                if k == 0:
+                    res.probe('zero_frame_write')
                 try:
                     w.write(x, t_, l_, a_)
                 except Exception as e:
@@ -610,6 +638,8 @@ def _child_history(case, workdir):
             x, t_, l_, a_ = _chunk(src, ids, with_cell, with_time)
             if op.get('squeeze') and op['k'] == 1 and fmt in SQUEEZE_OK:
                 x, t_, l_, a_ = x[0], (None if t_ is None else float(t_[0])), (None if l_ is None else l_[0]), (None if a_ is None else a_[0])
+            elif op.get('noncontig') and op['k'] > 0:
+                x, t_, l_, a_ = _noncontig(x, t_, l_, a_)
             w.write(x, t_, l_, a_)
             cursor += op['k']
             n_acc += op['k']
